@@ -20,7 +20,7 @@ PROPERTY_ID = "C05"
 LEVEL = "exploration"
 RULE = (
     "boundary generator: lot(s) at T, disposal at T + period days + delta with delta in {-1d,-1s,-1us,0,+1us,+1s,+1d,+-13h,...}, "
-    "T over leap / non-leap years and year ends, both timestamps written in independently chosen UTC offsets, disposals "
+    "T over leap / non-leap years, year ends and holdings that straddle 2^30 s / 2^31 s after the epoch (2004, 2038) with sub-second parts, both timestamps written in independently chosen UTC offsets, disposals "
     "spanning lots on either side of the threshold, income rows; countries us, es (365), jp, ie (never), generic with "
     "LONG_TERM_CAPITAL_GAINS in {0,1,30,180,365,366,730}. Non-trivial = a run whose fractions include a lot within one day "
     "of the threshold; distinct = hash of (history, country, period). "
@@ -66,6 +66,10 @@ def boundary_history(rng: random.Random, period_days: int) -> Dict[str, Any]:
         datetime(2016, 3, 1, 5, 30, tzinfo=timezone.utc),
         datetime(rng.randint(2015, 2022), rng.randint(1, 12), rng.randint(1, 28), rng.randint(0, 23), rng.randint(0, 59), rng.randint(0, 59), rng.choice((0, rng.randint(0, 999999))), tzinfo=timezone.utc),
     ]
+    # holdings that straddle 2^31 s and 2^30 s after the epoch (19 Jan 2038, 10 Jan 2004), with a sub-second part: where the binary
+    # exponent of a POSIX float changes, and with it the size of its last bit
+    for power in (31, 31, 30):
+        base_choices.append(datetime.fromtimestamp(2**power, tz=timezone.utc) - timedelta(days=rng.randint(0, max(period_days, 1)), seconds=rng.randint(0, 86399), microseconds=rng.randint(1, 999999)))
     t_lot = rng.choice(base_choices)
     t_event = t_lot + timedelta(days=period_days) + rng.choice(DELTAS)
     n_lots = rng.randint(1, 3)
